@@ -22,7 +22,7 @@ def _raised():
     from .engine import Raised
     return Raised
 
-from .values import (NONE, VBool, VConst, VDict, VExc, VInt, VList, VNone, VObj, VStr, VSymCache, VTuple,
+from .values import (NONE, VBool, VConst, VDict, VExc, VInt, VList, VNone, VObj, VStr, VStream, VSymCache, VTuple,
                      Unsupported, lit)
 
 
@@ -88,6 +88,28 @@ def call_method(ex, st, recv, name, args, kwargs, node):
     if isinstance(recv, VSymCache):
         yield from symcache_method(ex, st, recv, name, args, kwargs, node)
         return
+    if isinstance(recv, VStream):
+        if name in ("append", "extend"):
+            a = args[0]
+            if name == "append":
+                items = [a]
+            elif isinstance(a, (VList, VTuple)):
+                items = list(a.items)
+            elif isinstance(a, VStr):
+                items = ex.iter_items(st, a)
+                if items is None:
+                    raise Unsupported("stream.extend of a string of symbolic length")
+            else:
+                raise Unsupported(f"stream.{name}({a!r})")
+            for s2 in recv.spec.emit(ex, st, recv, items, node):
+                yield NONE, s2
+            return
+        if name == "decode":
+            if recv.spec.stream_result is None:
+                raise Unsupported("stream read without a result contract")
+            yield recv.spec.stream_result(ex, st, recv), st
+            return
+        raise Unsupported(f"stream.{name}")
     if isinstance(recv, VTuple):
         raise Unsupported(f"tuple.{name}")
     raise Unsupported(f"method {name} on {recv!r}")
@@ -135,7 +157,63 @@ def symcache_method(ex, st, cache, name, args, kwargs, node):
     raise Unsupported(f"memo.{name}")
 
 
+def bytes_list_to_str(ex, st, recv, kind="str"):
+    r = V.fresh_str(st.ctx, "dec", kind)
+    st.ctx.add(r.len() == len(recv.items))
+    for i, it in enumerate(recv.items):
+        st.ctx.add(r.a[i] == it.t)
+    return VStr(r.a, 0, len(recv.items), kind=kind)
+
+
+def regex_classes(ex, st, pattern, subject, full):
+    """re.Pattern.match / fullmatch for a pattern that is a sequence of character classes
+    (e.g. [A-Z0-9][A-Z0-9]); the result is used only for its truthiness"""
+    import re as _re
+    pat = pattern.pattern
+    is_bytes = isinstance(pat, bytes)
+    if is_bytes:
+        pat = pat.decode("latin1")
+    classes = _re.findall(r"\[([^\]]+)\]", pat)
+    if "".join(f"[{c}]" for c in classes) != pat:
+        raise Unsupported(f"regex {pat!r} outside the character-class-sequence subset")
+    sets = []
+    for c in classes:
+        codes = set()
+        i = 0
+        while i < len(c):
+            if i + 2 < len(c) and c[i + 1] == "-":
+                codes.update(range(ord(c[i]), ord(c[i + 2]) + 1))
+                i += 3
+            else:
+                codes.add(ord(c[i]))
+                i += 1
+        sets.append(sorted(codes))
+    if isinstance(subject, VList):
+        items = [x.t for x in subject.items]
+        n_ok = z3.BoolVal(len(items) == len(sets) if full else len(items) >= len(sets))
+        if len(items) < len(sets):
+            return VBool(False)
+        return VBool(z3.And([n_ok] + [V.in_set(items[i], sets[i]) for i in range(len(sets))]))
+    if isinstance(subject, VStr):
+        k = len(sets)
+        n = subject.len()
+        lenok = (n == k) if full else (n >= k)
+        return VBool(z3.And([lenok] + [V.in_set(subject.a[subject.lo + i], sets[i]) for i in range(k)]))
+    raise Unsupported("regex subject")
+
+
 def list_method(ex, st, recv, name, args, kwargs, node):
+    if name == "decode" and getattr(recv, "bytes", False):
+        enc = args[0].conc if args else "utf-8"
+        if enc != "ascii":
+            raise Unsupported("bytearray.decode(non-ascii)")
+        ok = z3.And([x.t < 128 for x in recv.items] + [z3.BoolVal(True)])
+        for kind, s2 in ex.raise_or_oblige(st, UnicodeDecodeError, ok, "ascii-decodable", node):
+            if kind == "ok":
+                yield bytes_list_to_str(ex, s2, recv), s2
+            else:
+                yield _raised()(VExc(UnicodeDecodeError)), s2
+        return
     if name in ("append", "extend", "reverse", "pop", "clear", "insert"):
         ex.check_frame(st, recv, node)
     if name == "append":
@@ -295,6 +373,14 @@ def m_endswith(ex, st, s, args, kwargs, node):
 
 def m_encode(ex, st, s, args, kwargs, node):
     enc = args[0].conc if args else kwargs.get("encoding", lit("utf-8")).conc
+    if enc in ("utf8", "utf-8") and "errors" in kwargs and kwargs["errors"].conc == "ignore":
+        # library contract: the UTF-8 bytes of the text with lone surrogates dropped -- an opaque
+        # function of the text (RFC 3629 arithmetic is the subject of the bridging lemma)
+        if s.conc is not None:
+            yield lit(s.conc.encode("utf8", errors="ignore"), "bytes"), st
+            return
+        yield opaque_str(st.ctx, "utf8_ignore", s, kind="bytes"), st
+        return
     if enc == "ascii":
         ok = V.is_ascii(st.ctx, s)
         for kind, s2 in ex.raise_or_oblige(st, UnicodeEncodeError, ok, "ascii-encodable", node):
@@ -365,6 +451,25 @@ def b_int(ex, st, args, kwargs, node):
     if isinstance(v, VBool):
         yield VInt(z3.If(v.t, 1, 0)), st
         return
+    base = kwargs.get("base", args[1] if len(args) > 1 else None)
+    if isinstance(v, VStr) and base is not None and isinstance(base, VInt) and base.conc() == 16:
+        n = is_conc_int(v.len())
+        if n is None or n > 4:
+            raise Unsupported("int(symbolic-length, 16)")
+        def hv(t):
+            return z3.If(z3.And(t >= 48, t <= 57), t - 48, z3.If(z3.And(t >= 65, t <= 70), t - 55,
+                         z3.If(z3.And(t >= 97, t <= 102), t - 87, -1)))
+        ds = [hv(v.a[v.lo + i]) for i in range(n)]
+        ok = z3.And([d >= 0 for d in ds] + [z3.BoolVal(n > 0)])
+        val = iv(0)
+        for d in ds:
+            val = val * 16 + d
+        for kind, s2 in ex.raise_or_oblige(st, ValueError, ok, "int(x,16)-of-hex-digits", node):
+            if kind == "ok":
+                yield VInt(V.name_term(s2.ctx, val, "hex")), s2
+            else:
+                yield _raised()(VExc(ValueError)), s2
+        return
     if isinstance(v, VStr) and len(args) == 1 and not kwargs:
         if v.conc is not None:
             try:
@@ -424,6 +529,17 @@ def b_bool(ex, st, args, kwargs, node):
 def b_ord(ex, st, args, kwargs, node):
     s = args[0]
     yield VInt(ex.char_code(s)), st
+
+
+def b_chr(ex, st, args, kwargs, node):
+    v = args[0]
+    c = v.conc()
+    if c is not None:
+        yield lit(chr(c)), st
+        return
+    r = V.fresh_str(st.ctx, "chr")
+    st.ctx.add(r.len() == 1, r.a[0] == v.t)
+    yield VStr(r.a, 0, 1), st
 
 
 def b_isinstance(ex, st, args, kwargs, node):
@@ -616,6 +732,11 @@ def p_hash_parts(ex, st, args, kwargs, node):
     yield VInt(V.hash_of(st.ctx, list(args))), st
 
 
+def p_config_of(ex, st, args, kwargs, node):
+    from contracts import spec_quote
+    yield ex.wrap(spec_quote.config_of(args[0].obj)), st
+
+
 SPEC_PRIMS = {
     "hash_parts": p_hash_parts,
     "CUT": p_cut,
@@ -679,6 +800,7 @@ def install(ex):
     add(builtins.reversed, "reversed", b_reversed)
     add(builtins.enumerate, "enumerate", b_enumerate)
     add(builtins.hash, "hash", b_hash)
+    add(builtins.chr, "chr", b_chr)
     add(re.match, "re.match", re_match)
     add(unicodedata.normalize, "unicodedata.normalize", ud_normalize)
     ex.assumed_contracts = set()
@@ -687,6 +809,13 @@ def install(ex):
         from contracts import spec_quote
         for name in spec_quote.QUOTERS:
             add(getattr(_q, name), "quoter." + name, quoter_contract(name))
+    except ImportError:
+        pass
+    try:
+        from contracts import spec_quote as _sq
+        add(_sq.config_of, "spec.config_of", p_config_of)
+        add(_sq.component_alphabet, "spec.component_alphabet",
+            lambda ex, st, args, kwargs, node: iter([(ex.wrap(_sq.component_alphabet(args[0].obj)), st)]))
     except ImportError:
         pass
     try:
